@@ -157,6 +157,7 @@ func registerFuncsIntrinsics(m map[string]intrinsic) {
 		if c == nil {
 			return
 		}
+		w.touch(c.id, false)
 		reg := w.funcsReg[c]
 		if idx := w.mapFind(reg, a[1]); idx >= 0 {
 			fin(reg.vals[idx])
